@@ -41,7 +41,7 @@ def main():
                 "engine": "static-rules",
                 "level_claimed": {
                     "category": level,
-                    "text": (text + " NOT DECIDED: " + nd)[:1800],
+                    "text": text[:4000] + " NOT DECIDED: " + nd,
                     "design_ref": f"DESIGN.md section 7, {pid}",
                 },
                 "level_note": "trusted base: rustc nightly front end + MIR builder, engine/driver (facts extractor), engine/core.py + engine/rules.py, the reviewed instance table rules/%s.py; decides structural necessary conditions for all paths of the analysed bodies, not the behavioural statement" % pid,
